@@ -6,6 +6,6 @@ CONSTANTS
   Bases = {"One", "Mid", "MaxM1", "Max"}
   Tags = {0, 1, 2, 3}
   Ads = {0}
-  Muts = {"ad", "flip", "foreign"}
+  Muts = {"ad", "flip", "foreign", "shortbuf"}
 INVARIANTS Emit
 CHECK_DEADLOCK FALSE
